@@ -318,3 +318,40 @@ def run_conds(conds: List[Cond], pid: str, workers: int = NCPU, known: Sequence[
     res = run_parallel([lambda c=conds[i]: job(c) for i in order], workers=workers)
     back = {i: r for i, r in zip(order, res)}
     return [o for i in range(len(conds)) for o in back[i]]
+
+
+def thin(conds: List[Cond], cap: int, keep: Sequence[str] = ()) -> List[Cond]:
+    """Bound a thorough enumeration: keep every condition whose id is in `keep` (the quick tier's, so thorough ⊇ quick), then fill
+    up to `cap` with the others, taken evenly spaced *within each family* (first segment of the id), so that no family is dropped.
+    Deterministic; the obligations actually run are listed in the evidence file."""
+    if len(conds) <= cap:
+        return conds
+    keep = set(keep)
+    chosen = [c for c in conds if c.oid in keep]
+    rest: Dict[str, List[Cond]] = {}
+    for c in conds:
+        if c.oid not in keep:
+            rest.setdefault(c.oid.split("/")[0], []).append(c)
+    room = max(0, cap - len(chosen))
+    total = sum(len(v) for v in rest.values())
+    picked = set()
+    for fam, lst in rest.items():
+        k = max(1, round(room * len(lst) / total)) if room else 0
+        if k >= len(lst):
+            picked.update(id(c) for c in lst)
+        elif k:
+            step = len(lst) / k
+            picked.update(id(lst[int(i * step)]) for i in range(k))
+    return [c for c in conds if c.oid in keep or id(c) in picked]
+
+
+def tier_conds(build, tier: str, cap: int, tmax: int = 300) -> List[Cond]:
+    """the conditions of a tier; the thorough enumeration is capped (see thin) and each condition's budget bounded, so that a thorough
+    run ends in tens of minutes on 16 cores instead of hours - what is cut is reported as not run, never as held"""
+    conds = build(tier)
+    if tier != "thorough":
+        return conds
+    conds = thin(conds, cap, [c.oid for c in build("quick")])
+    for c in conds:
+        c.timeout = min(c.timeout, tmax)
+    return conds
